@@ -115,6 +115,25 @@ func (h *harness) runParse(c *codec, in []byte, class string, w *worker) ([]byte
 		})
 		return nil, false
 	}
+	// in place: Parse(b, b) — the write position never passes the read position, golib's own tests
+	// parse in place — must give what the separate destination gave
+	if len(in) > 0 {
+		w.alias = append(w.alias[:0], in...)
+		var n2 int
+		if _, st2, p2 := common.Catch(func() { n2 = c.parse(w.alias, w.alias) }); p2 {
+			h.viol(c.name+"Parse|panic|in-place", str, func() (string, any, string) {
+				return fmt.Sprintf("%sParse(b, b) with b = %q panicked at %s", c.name, in, common.PanicSite(st2)), cs(map[string]any{"stack": st2}), ""
+			})
+			return nil, false
+		} else if n2 != n || string(w.alias[:min(max(n2, 0), len(w.alias))]) != string(out) {
+			got := append([]byte(nil), w.alias[:min(max(n2, 0), len(w.alias))]...)
+			h.viol(c.name+"Parse|in-place-differs|"+class, str, func() (string, any, string) {
+				return fmt.Sprintf("%sParse(b, b) with b = %q gives %q (n = %d), with a separate destination %q (n = %d)", c.name, in, got, n2, out, n), cs(nil),
+					fmt.Sprintf("func TestReplay(t *testing.T) { b := []byte(%q); n := strz.%sParse(b, b); if string(b[:n]) != %q { t.Fatalf(\"got %%q\", b[:n]) } }", in, c.name, out)
+			})
+			return nil, false
+		}
+	}
 	// a returned string is a value: it must not share memory with the caller's []byte (the caller
 	// may reuse its buffer); checked on a private copy of the input that is overwritten afterwards
 	if len(in) > 0 {
